@@ -196,8 +196,22 @@ func (s *sys) apply(e int) {
 		if !s.underManual(i) {
 			s.counted[i] = true
 		}
+		var waiting []int
+		for j := 1; j < len(s.w.parent); j++ {
+			if j != i && s.c.BC.IsKnownOrphan(&s.w.blk[j].Hash) {
+				waiting = append(waiting, j)
+			}
+		}
 		_, _, err := s.c.BC.ProcessBlock(s.w.blk[i].Block(), blockchain.BFNone)
 		s.lastErr = err
+		// An orphan is really handed to acceptance when its parent arrives; if
+		// that happens while it is below a manually invalidated block it is in
+		// the position of a delivery made under invalidation (see above).
+		for _, j := range waiting {
+			if !s.c.BC.IsKnownOrphan(&s.w.blk[j].Hash) && s.underManual(j) {
+				s.counted[j] = false
+			}
+		}
 	case kH:
 		s.hdrSent[i] = true
 		h := s.w.blk[i].Msg.Header
